@@ -10,6 +10,8 @@ func init() {
 			readerNextFrameRules(c, "C16")
 			readerReadRules(c, "C16")
 			readerDiscardRules(c, "C16")
+			writerMethodRules(c, "C16")
+			writerWriteRules(c, "C16")
 		},
 	})
 }
